@@ -776,6 +776,9 @@ def _adv_get(a, key):
                 return r
             return moveaxis_first_last(r, kd).copy()
         return r
+    # one index array per axis of a 3-d array:  a[i_arr, j_arr, k_arr]  (element-wise triples; variable length allowed)
+    if len(key) == 3 and a.ndim == 3 and a.n is None and _bi.all(isinstance(k, SArr) and k.ndim == 1 and k.dtype.kind != "b" for k in key):
+        return _triple_get(a, key)
     k0, rest = key[0], tuple(key[1:])
     d0 = a.shape_cap[0]
     # leading full slice then advanced: a[:, idx]
@@ -862,6 +865,49 @@ def _stack_rows(rows, n, dt):
     return SArr.new(rows, (len(rows),), n, dt)
 
 
+def _triple_len(keys):
+    caps = {k.shape_cap[0] for k in keys}
+    if len(caps) != 1:
+        raise Unsupported("index arrays of different capacity")
+    ns = [k.n for k in keys if k.n is not None]
+    return caps.pop(), (ns[0] if ns else None)
+
+
+def _triple_get(a, keys):
+    cap, n = _triple_len(keys)
+    D0, D1, D2 = a.shape_cap
+    fl = a.flat_list()
+    ks = [k.flat_list() for k in keys]
+    out = []
+    for p in range(cap):
+        i, j, k = (_num(x[p]) for x in ks)
+        if not _bi.any(isinstance(v, Sym) for v in (i, j, k)):
+            out.append(fl[(int(i) * D1 + int(j)) * D2 + int(k)])
+            continue
+        flat = i * (D1 * D2) + j * D2 + k
+        v = fl[-1]
+        for q in range(len(fl) - 2, -1, -1):
+            v = ite(flat == q, fl[q], v)
+        out.append(v)
+    return SArr.new(out, (cap,), n, a.dtype)
+
+
+def _triple_set(a, keys, val):
+    cap, n = _triple_len(keys)
+    D0, D1, D2 = a.shape_cap
+    ks = [k.flat_list() for k in keys]
+    vals = asarray(val).flat_list() if isinstance(val, (SArr, list, tuple, _np.ndarray)) else [val] * cap
+    if len(vals) == 1:
+        vals = vals * cap
+    for p in range(cap):
+        i, j, k = (_num(x[p]) for x in ks)
+        valid = True if n is None else (p < n)
+        flat = i * (D1 * D2) + j * D2 + k
+        v = _cast_in(vals[p], a.dtype)
+        for q, o in enumerate(a.offs):
+            a.buf[o] = ite(and_(valid, flat == q), v, a.buf[o])
+
+
 def _get2(a, i, j):
     d0, d1 = a.shape_cap[0], a.shape_cap[1]
     if isinstance(i, Sym):
@@ -925,6 +971,27 @@ def _adv_set(a, key, val):
             _set_rows_mask(view, k, val)
         else:
             view[k] = val
+        return
+    if isinstance(key, tuple) and len(key) == 3 and a.ndim == 3 and a.n is None and _bi.all(isinstance(k, SArr) and k.ndim == 1 and k.dtype.kind != "b" for k in key):
+        _triple_set(a, key, val)
+        return
+    if (isinstance(key, tuple) and len(key) == 2 and isinstance(key[0], SArr) and key[0].dtype.kind == "b" and key[0].ndim == 1
+            and isinstance(key[1], int) and a.ndim == 2 and a.n is None and key[0].shape_cap[0] == a.shape_cap[0]):
+        # a[row_mask, col] = values   (the k-th selected row takes values[k]; a scalar goes everywhere)
+        col = key[1] if key[1] >= 0 else key[1] + a.shape_cap[1]
+        vl = asarray(val).flat_list() if isinstance(val, (SArr, list, tuple, _np.ndarray)) else None
+        cnt = 0
+        W = a.shape_cap[1]
+        for r, m in enumerate(key[0].flat_list()):
+            o = a.offs[r * W + col]
+            if vl is None or len(vl) == 1:
+                pick = val if vl is None else vl[0]
+            else:
+                pick = vl[-1]
+                for q in range(len(vl) - 2, -1, -1):
+                    pick = ite(cnt == q, vl[q], pick)
+            a.buf[o] = ite(m, _cast_in(pick, a.dtype), a.buf[o])
+            cnt = cnt + ite(m, 1, 0)
         return
     if isinstance(key, tuple):
         k0, rest = key[0], tuple(key[1:])
@@ -1754,8 +1821,18 @@ def put(a, idx, vals):
 
 
 def unravel_index(i, shape):
-    if isinstance(i, (Sym, SArr, list, tuple)):
-        raise Unsupported("unravel_index on arrays / symbolic indices")
+    if isinstance(i, (list, tuple)):
+        i = array(i)
+    if isinstance(i, SArr):
+        if len(shape) != 2 or i.ndim != 1:
+            raise Unsupported("unravel_index nd")
+        cols = int(shape[1])
+        fl = [_num(v) for v in i.flat_list()]
+        q = [(v // cols) if not isinstance(v, Sym) else mk(sc.z(v) / cols) for v in fl]        # z3 integer division (indices are non-negative)
+        r = [(v % cols) if not isinstance(v, Sym) else mk(sc.z(v) % cols) for v in fl]
+        return (SArr.new(q, i.shape_cap, i.n, int64), SArr.new(r, i.shape_cap, i.n, int64))
+    if isinstance(i, Sym):
+        raise Unsupported("unravel_index on a symbolic scalar")
     return tuple(int(x) for x in _np.unravel_index(i, shape))
 
 
